@@ -14,8 +14,13 @@ Definition s_meta_columns_ : name := [95;109;101;116;97;95;99;111;108;117;109;11
 Definition s_meta_tables : name := [95;109;101;116;97;95;116;97;98;108;101;115].
 (* "column_name" *)
 Definition s_column_name : name := [99;111;108;117;109;110;95;110;97;109;101].
-(* "column_names": the literal Table::new inserts for a table called _meta_columns_* (finding F3) *)
+(* "column_names": the literal Table::new inserted for a table called _meta_columns_* until commit
+   647a26b (finding F3, fixed); kept only so that the history of the finding can be replayed with
+   the generic [seed] parameter of the definitions below *)
 Definition s_column_names : name := [99;111;108;117;109;110;95;110;97;109;101;115].
+(* the literal Table::new inserts for a table called _meta_columns_* in the code as it stands
+   (src/mem_store/table.rs, since 647a26b): the name of the one column catalogue rows have *)
+Definition code_seed : name := s_column_name.
 (* "timestamp", "name" *)
 Definition s_timestamp : name := [116;105;109;101;115;116;97;109;112].
 Definition s_name : name := [110;97;109;101].
@@ -25,8 +30,10 @@ Definition meta_columns_of (t : name) : name := s_meta_columns_ ++ t.
 Definition is_meta_columns (n : name) : bool := is_prefix s_meta_columns_ n.
 Definition is_meta_tables (n : name) : bool := is_prefix s_meta_tables n.
 
-(* Table::new(name, lru, column_names): [seed] is the literal inserted for _meta_columns_* tables,
-   "column_names" in the code as it stands, "column_name" once F3 is repaired *)
+(* Table::new(name, lru, column_names): [seed] is the literal inserted for _meta_columns_* tables;
+   the state machine (Model/WalSM.v) instantiates it with [code_seed] = "column_name".  Before
+   647a26b the literal was "column_names" (F3): the definitions stay generic in it so that the old
+   behaviour remains expressible. *)
 Definition seed_cols (seed : name) (n : name) (dflt : option (list name)) : option (list name) :=
   if is_meta_columns n then Some [seed]
   else if is_meta_tables n then Some [s_timestamp; s_name]
